@@ -115,7 +115,7 @@ pub fn gen_acks_server(tapes: &[Vec<u32>]) -> RawCase {
                     r.resp_delay = *t.pick(&[0usize, 5, 30]);
                     let mut presp = empty_msg();
                     presp.eos_on_head = true;
-                    r.pushes = vec![Push { resp: presp, status: 200, reader: Reader::Eager, abandon: false }];
+                    r.pushes = vec![Push { resp: presp, status: 200, reader: Reader::Eager, abandon: false, resp_delay: 0 }];
                     reqs.push(r);
                 }
                 script.push(hdr(id, "GET", true));
